@@ -144,7 +144,7 @@ func (x *Exec) sortTable(q *Query) map[string]string {
 	base := sortTableBase
 	if base == nil || sortTableKey != key {
 		base = map[string]string{}
-		for _, text := range []string{x.w.Prelude(true), codecPrelude(true), derPrelude(true), fmtPrelude(true), cryptoPrelude(), timePrelude()} {
+		for _, text := range []string{x.w.Prelude(true), codecPrelude(true), derPrelude(true), fmtPrelude(true), cryptoPrelude(), timePrelude(), pePrelude(x, true)} {
 			for _, mm := range declRe.FindAllStringSubmatch(text, -1) {
 				base[mm[1]] = mm[3]
 			}
